@@ -3,6 +3,7 @@ a user-written Runner that reuses SequentialRunner._setup and replaces the run l
 seeded op list).  Both run the real pams code; see DESIGN.md 2.2.
 """
 import copy
+import math
 import os
 import json
 import random
@@ -283,7 +284,7 @@ class ExplorerRunner(SequentialRunner):
                 mon.mm[m.market_id].tick = float(op["tick"])
                 mon.rec("Tick", m.market_id, float(op["tick"]))
                 mon.probe("tick_size_changed_mid_run")
-            elif k in ("resubmit", "wrong_market", "ghost_cancel", "cancel_wrong_market"):
+            elif k in ("resubmit", "wrong_market", "ghost_cancel", "cancel_wrong_market", "strict_offgrid"):
                 self._op_hostile(op, agents)
             else:
                 raise ValueError(k)
@@ -305,6 +306,7 @@ class ExplorerRunner(SequentialRunner):
             except AssertionError:
                 self.mon.probe("forced_round_refused")
                 logs = []
+                self._refusal_left_no_trace(market, "forced round on a stopped market")
             finally:
                 self.mon.ext["forced"] = False
         else:
@@ -401,17 +403,50 @@ class ExplorerRunner(SequentialRunner):
         sim._trigger_event_after_cancel(cancel_log=log)
         self._after_accept(market, op.get("cont", False))
 
+    def _refusal_left_no_trace(self, market, what, arg=None, snap=None):
+        """after a refused operation: the resting orders carry the stamps they had, and the object that was
+        handed in is as it was.  Reported under every property of the running check (a refused operation that
+        rewrites state is visible to each of them only later, through the objects the scenario goes on using)."""
+        mon = self.mon
+        mm = mon.mm[market.market_id]
+        for mo in list(mm.buy.values()) + list(mm.sell.values()):
+            if mo.obj is not None and (mo.obj.placed_at != mo.placed_at or mo.obj.order_id != mo.oid
+                                       or bool(mo.obj.is_canceled)):
+                for p_ in sorted(mon.on):
+                    mon.viol(p_, "refused_operation_changed_resting_order",
+                             {"what": what, "order": mo.brief(), "placed_at_now": mo.obj.placed_at, "id_now": mo.obj.order_id,
+                              "is_canceled_now": mo.obj.is_canceled})
+                break
+        if arg is not None and snap is not None and order_fields(arg) != snap:
+            for p_ in sorted(mon.on):
+                mon.viol(p_, "refused_operation_changed_its_argument",
+                         {"what": what, "before": repr(snap), "after": repr(order_fields(arg))})
+
+    def _place(self, agent, market, o, cont=False):
+        sim = self.simulator
+        agent.mine.append(o)
+        sim._trigger_event_before_order(order=o)
+        log = market._add_order(order=o)
+        agent.submitted_order(log=log)
+        sim._trigger_event_after_order(order_log=log)
+        self._after_accept(market, cont)
+
     def _op_hostile(self, op, agents):
+        import warnings as _w
         sim = self.simulator
         mon = self.mon
         k = op["k"]
         market = sim.markets[op["m"] % len(sim.markets)]
+        arg = None
+        snap = None
+        follow = None
         try:
             if k == "resubmit":
                 mo = self._pick(op, market)
                 if mo is None:
                     return
                 mon.probe("hostile_resubmit_" + mo.status)
+                arg, snap = mo.obj, order_fields(mo.obj)
                 market._add_order(order=mo.obj)
             elif k == "wrong_market":
                 if len(sim.markets) < 2:
@@ -421,12 +456,19 @@ class ExplorerRunner(SequentialRunner):
                 o = Order(agent_id=agent.agent_id, market_id=other.market_id, is_buy=op["side"] == "b",
                           kind=LIMIT_ORDER, volume=1, price=float(op["px"]))
                 mon.probe("hostile_wrong_market")
+                arg, snap = o, order_fields(o)
+                if op.get("then"):
+                    follow = (agent, other, o)  # the router then hands the same object to the market it names
                 market._add_order(order=o)
             elif k == "ghost_cancel":
                 agent = agents[op["a"] % len(agents)]
                 o = Order(agent_id=agent.agent_id, market_id=market.market_id, is_buy=op["side"] == "b",
-                          kind=LIMIT_ORDER, volume=1, price=float(op["px"]))
+                          kind=LIMIT_ORDER, volume=int(op.get("vol", 1)), price=float(op["px"]),
+                          ttl=op.get("ttl"))
                 mon.probe("hostile_ghost_cancel")
+                arg, snap = o, order_fields(o)
+                if op.get("then"):
+                    follow = (agent, market, o)  # a cancel sent too early; the order itself is submitted afterwards
                 market._cancel_order(cancel=Cancel(order=o))
             elif k == "cancel_wrong_market":
                 if len(sim.markets) < 2:
@@ -436,12 +478,39 @@ class ExplorerRunner(SequentialRunner):
                 if mo is None:
                     return
                 mon.probe("hostile_cancel_wrong_market")
+                arg, snap = mo.obj, order_fields(mo.obj)
                 other._cancel_order(cancel=Cancel(order=mo.obj))
-        except ValueError:
+            elif k == "strict_offgrid":
+                # a client that runs with warnings as errors: an off-grid price is then refused (the warning is
+                # raised) and the client submits the corrected price with a new object
+                agent = agents[op["a"] % len(agents)]
+                px = float(op["px"]) + 0.37 * market.tick_size
+                if px % market.tick_size == 0:
+                    return
+                o = Order(agent_id=agent.agent_id, market_id=market.market_id, is_buy=op["side"] == "b",
+                          kind=LIMIT_ORDER, volume=1, price=px)
+                mon.probe("hostile_strict_offgrid")
+                arg, snap = o, order_fields(o)
+                lvl = math.floor(px / market.tick_size) if o.is_buy else math.ceil(px / market.tick_size)
+                o2 = Order(agent_id=agent.agent_id, market_id=market.market_id, is_buy=o.is_buy, kind=LIMIT_ORDER,
+                           volume=1, price=lvl * market.tick_size)
+                follow = (agent, market, o2)
+                with _w.catch_warnings():
+                    _w.simplefilter("error", UserWarning)
+                    market._add_order(order=o)
+        except (ValueError, UserWarning):
             mon.probe("hostile_rejected")
+            self._refusal_left_no_trace(market, k, arg, snap)
             mon.observe("rejected")
+            if follow is not None:
+                mon.probe("carried_on_after_refusal")
+                self._place(*follow, cont=op.get("cont", False))
             return
         mon.viol("C04", "hostile_op_accepted", {"kind": k, "op": op})
+
+
+def order_fields(o):
+    return (o.agent_id, o.market_id, o.is_buy, o.kind, o.price, o.volume, o.ttl, o.placed_at, o.order_id, bool(o.is_canceled))
 
 
 def run_B(scn: Dict[str, Any], on, plugins=()) -> Dict[str, Any]:
